@@ -206,7 +206,7 @@ def solver_report(ctx, ev, viols, pid):
             small = {k: e.get(k) for k in ("entry", "dof", "pose_class", "prev_class", "limits_class", "stack", "geom",
                                             "signs", "offsets", "w16", "params", "prev", "truth")}
             small["answers"] = e.get("answers", [])[:8]
-            ctx.violation("%s:%s" % (clause, e.get("pose_class", "trajectory")),
+            ctx.violation("%s:%s" % (clause, "pgram" if e.get("pgram") else e.get("pose_class", "trajectory")),
                           "event #%d %s" % (v["l"], json.dumps(small)[:900]), e)
     ctx.evaluations += len(ev)
     for e in ev:
